@@ -1,5 +1,5 @@
 (* C11 model driver.  A case is the path string in hex ("-" = empty string).
-   default mode : per case   M root=<b> elems=<e,..> nf=<b> || t=<hex> alloc=<n>
+   default mode : per case   M root=<b> elems=<e,..> nf=<b> || t=<hex>
                              S root=<b> elems=<e,..> nf=true
                   (M = faithful model of zix_path_lexically_normal, S = std_normal of the spec)
    canon        : per line (hex of a result string) the observable part  root= elems= nf=
@@ -41,7 +41,7 @@ let () =
     | _ ->
       let s = bytes_of_case line in
       (match PathNormModel.zix_normal_full s with
-       | Some (a, t) -> Printf.printf "M %s || t=%s alloc=%d\n" (obs t) (hex_of_zs t) (int_of_z a)
+       | Some (_, t) -> Printf.printf "M %s || t=%s\n" (obs t) (hex_of_zs t)
        | None -> print_endline "M OUT-OF-FUEL");
       let sp = PathNormSpec.std_normal s in
       Printf.printf "S %s\n" (obs sp))
